@@ -184,5 +184,25 @@ PROPS["C06"] = {
     "shrink": False,
 }
 
+PROPS["C09"] = {
+    "id": "C09",
+    "lean_modules": ["JT.Props.C09"],
+    "extractors": ["clones"],
+    "functional_ops": ["stab"],
+    "rule": ("`stab`: sessions of 2..8 frames (escape-free bodies of equal length, escape-dense bodies, sub-packaged messages) fed to a real packageParse through the reader's reused 1023-byte buffer one frame per read (fast path), in reads of <= 200 bytes and <= 1023 bytes (history buffer); "
+             "every delivered *Message is kept, the address range of every delivered byte slice and every stored sub-package slot is compared with the read buffer and with the history array, and after all later reads and the teardown (buffers zeroed) every kept message is rendered again "
+             "(id, phone, serial, package numbers, body, raw data, BCD phone via Header.Encode); `stabsock`: conversations of 6..25 frames against a real server whose callbacks keep the *Message / Message they were given (slow write callback so that the reader runs ahead) and look again after the connection is gone. "
+             "non-trivial = session with at least two reads."),
+    "technique": "Lean 4 proof over a region/slice memory model (owned allocations are stable under every later operation) with a regenerated source fact (every frame is bytes.Clone'd, go/ast) + address-range and content re-read checks on the real code",
+    "level_text": ("Machine-checked Lean 4 theorems over a memory model of a connection (read buffer, history array, owned allocations; operations: read, history write, allocation, teardown): a slice of an owned allocation reads the same after ANY later sequence of operations; "
+                   "the extractor-regenerated fact that packageParse.unpack hands only bytes.Clone'd frames to the decoder makes every delivered field owned, hence stable; the pre-repair provenance (views of the read buffer / history array) is refuted by concrete witnesses. "
+                   "On the real code the harness checks on every run that no delivered byte slice and no stored sub-package slot overlaps the receive buffers (addresses) and that messages kept by callbacks still read the same after later traffic and teardown, in-process and over a socket. "
+                   "Partial: which goroutine schedule the reader/writer take is sampled, not proved; 'replies are computed from the message's own bytes' is decided by C05/C06."),
+    "level_note": "Trusted: Lean kernel; the memory model (Go slices as region+offset+length; bytes.Clone / bytes.Buffer as fresh allocations); the go/ast extractor; the hook exposing address ranges; harness. Partial on schedules.",
+    "trusted_base": _PARSE_TB + ["extractor clones (go/ast over packageParse.unpack)", "memory model JT/Model/Mem.lean: Go slices as views (region, offset, length); the garbage collector keeps owned allocations alive"],
+    "assumptions": ["callbacks do not modify the message themselves", "ReplyID / PlatformSerialNumber / declared body length of the shared header are stamped by the writer when it answers and are not message content"],
+    "shrink": False,
+}
+
 # properties that are not claimed, with the reason (anything not listed and not in PROPS gets a generic "not built yet")
 NOT_APPLICABLE = {}
